@@ -67,6 +67,12 @@ func ProfileByName(name string) *Profile {
 		p.Tmpls = tmplsWhere(func(t Tmpl) bool { return t.LR })
 		p.MemoPct = 50
 		p.NoStaleCtx = true
+		// errors and state changes of the discarded last growth attempt must not be retained, and what follows
+		// the left-recursive rule must see the state / error list it leaves behind
+		p.State = true
+		p.W[KStC] = 5
+		p.Errors = 50
+		p.ScanPct = 45
 	case "c10": // -optimize-parser
 		p.NoStaleCtx = true
 		p.MemoPct = 0
@@ -104,6 +110,7 @@ func ProfileByName(name string) *Profile {
 		p.W[KRef] = 18
 		p.MemoPct = 0
 		p.NoStaleCtx = true
+		p.ThrowIdiom = 50
 	case "c16", "budget": // MaxExpressions
 		p.BudgetPct = 60
 		p.W[KStar] = 14
@@ -146,6 +153,7 @@ func ProfileByName(name string) *Profile {
 		p.W[KAlt] = 22
 		p.W[KAct] = 10
 		p.IgnoreCase = 25
+		p.CharAlt = 30
 		p.NoStaleCtx = true
 		p.BudgetPct = 0
 		p.EntryPct = 0
